@@ -2,11 +2,17 @@ module kvharness
 
 go 1.23.0
 
-require github.com/segmentio/kafka-go v0.0.0
+require (
+	github.com/segmentio/kafka-go v0.0.0
+	github.com/xdg-go/scram v1.1.2
+)
 
 require (
 	github.com/klauspost/compress v1.15.9 // indirect
 	github.com/pierrec/lz4/v4 v4.1.15 // indirect
+	github.com/xdg-go/pbkdf2 v1.0.0 // indirect
+	github.com/xdg-go/stringprep v1.0.4 // indirect
+	golang.org/x/text v0.23.0 // indirect
 )
 
 replace github.com/segmentio/kafka-go => /repo
